@@ -132,20 +132,22 @@ def object_case(rng):
 
 def dependencies_case(rng):
     s = {"dependencies": {}}
-    if rng.random() < 0.5:
-        s["dependencies"]["a"] = rng.sample(["b", "c", "d"], rng.randint(1, 2))
-    else:
-        s["dependencies"]["a"] = {"required": ["b"], "properties": {"b": leaf(rng)}}
-    if rng.random() < 0.3:
-        s["dependencies"]["c"] = ["a"]
+    triggers = rng.sample(["a", "c", "e", "g"], rng.randint(1, 4))
+    for t in triggers:
+        if rng.random() < 0.5:
+            s["dependencies"][t] = rng.sample(["b", "d", "f"], rng.randint(1, 2))
+        else:
+            s["dependencies"][t] = {"required": [rng.choice(["b", "d", "f"])], "properties": {"b": leaf(rng)}}
     data = {}
-    for n in ("a", "b", "c", "d"):
+    for n in ("a", "b", "c", "d", "e", "f", "g"):
         r = rng.random()
-        if r < 0.55:
+        if n in triggers and r < 0.85:
             data[n] = val(rng.choice(LEAVES), rng)
-        elif r < 0.7:
+        elif r < 0.55:
+            data[n] = val(rng.choice(LEAVES), rng)
+        elif r < 0.65:
             data[n] = None
-    if rng.random() < 0.1:
+    if rng.random() < 0.08:
         data = rng.choice([[], "a", 3])
     return s, data, "dependencies"
 
